@@ -90,7 +90,8 @@ func (rt *verifRT) RoundTrip(req *http.Request) (*http.Response, error) {
 	return &http.Response{StatusCode: w.code, Body: b}, nil
 }
 
-var verifC14Names = [3]string{"alpha", "beta", "gamma"}
+// names with characters that are reserved in a URL query: they must travel through the query unharmed
+var verifC14Names = [3]string{"alpha", "be+ta", "g&amma=1"}
 
 type verifC14Entry struct {
 	present bool
